@@ -66,4 +66,17 @@ Fixpoint sl_full_run (n : nat) (e : Env (F:=F)) (pts : list (BP (F:=F))) (fmax :
   | S k => let? x' := sl_full_step e pts fmax x in sl_full_run k e pts fmax x'
   end.
 
+(* SpeedLimitTrainSim::walk_internal with its consist: the loop of TrainStep.sl_walk, but the limits of
+   every step are the ones the consist itself publishes.  Err 1399 = fuel exhausted (the code's loop has
+   no bound), Err 1306 = the train came to rest outside the stopping window with a zero target. *)
+Fixpoint sl_full_walk (fuel : nat) (e : Env (F:=F)) (pts : list (BP (F:=F))) (offset_end fmax : F)
+    (x : SLState (F:=F) * Consist (F:=F)) : res (SLState (F:=F) * Consist (F:=F)) :=
+  if walk_cond offset_end (fst x) then
+    match fuel with
+    | O => Err 1399
+    | S f => let? _ := ensure (negb (walk_stuck offset_end (fst x))) 1306 in
+             let? x' := sl_full_step e pts fmax x in sl_full_walk f e pts offset_end fmax x'
+    end
+  else Ok x.
+
 End TrainFull.
